@@ -70,6 +70,9 @@ def op_sql(op, table="t", returning=False):
         return [{"k": "exec", "sql": "COMMIT"}]
     if k == "rollback":
         return [{"k": "exec", "sql": "ROLLBACK"}]
+    if k == "drophandle":
+        # the whole history runs on handle 1 (a clone of handle 0, see render_case); a new clone continues
+        return [{"k": "drop_handle", "h": 1}, {"k": "clone", "h": 1}]
     if k == "savepoint":
         return [{"k": "exec", "sql": "SAVEPOINT sp%d" % op["name"]}]
     if k == "rollback_to":
@@ -126,6 +129,13 @@ def render_case(cid, hist, schema="pk", prelude=None, config_ops=None, reopen_op
         marks.append((at, scan_at))
     obs_at = len(ops)
     ops += [{"k": "query", "sql": q} for _, q in OBS]
+    if any(st["op"]["k"] == "drophandle" for st in hist):
+        # histories that drop the handle holding the transaction run on handle 1, a clone of handle 0 made after the
+        # schema exists; handle 0 only keeps the database open
+        ns = len(SCHEMAS[schema]) + len(config_ops or []) + len(prelude or [])
+        ops = ops[:ns] + [{"k": "clone", "h": 1}] + [o if o.get("k") in ("clone", "drop_handle") else dict(o, h=1) for o in ops[ns:]]
+        marks = [(a + 1, None if b is None else b + 1) for a, b in marks]
+        obs_at += 1
     return {"id": cid, "ops": ops}, marks, obs_at
 
 
